@@ -44,6 +44,120 @@ class Canon(ast.NodeTransformer):
         self.cls.pop()
         return node
 
+    # -- loops --------------------------------------------------------------------------------------------
+    def visit_For(self, node):
+        self.generic_visit(node)
+        # for x in G: yield x   ==   yield from G
+        if not node.orelse and len(node.body) == 1 and isinstance(node.body[0], ast.Expr) and isinstance(node.body[0].value, ast.Yield) \
+                and isinstance(node.target, ast.Name) and isinstance(node.body[0].value.value, ast.Name) \
+                and node.body[0].value.value.id == node.target.id:
+            return ast.copy_location(ast.Expr(value=ast.YieldFrom(value=node.iter)), node)
+        return node
+
+    def _block(self, stmts):
+        """while i < N: body; i += c   (i a local name not read afterwards, N not changed by the body)  ==
+        for i in range(i, N, c): body"""
+        out = []
+        for k, st in enumerate(stmts):
+            new = self._while_to_for(st, stmts[k + 1:]) if isinstance(st, ast.While) else None
+            out.append(new or st)
+        return out
+
+    def _while_to_for(self, w, following):
+        t = w.test
+        if not (isinstance(t, ast.Compare) and len(t.ops) == 1 and w.body):
+            return None
+        a, b, op = t.left, t.comparators[0], type(t.ops[0])
+        lastst = w.body[-1]
+        ctr = None
+        if isinstance(lastst, ast.AugAssign) and isinstance(lastst.target, ast.Name):
+            ctr = lastst.target.id
+        elif isinstance(lastst, ast.Assign) and len(lastst.targets) == 1 and isinstance(lastst.targets[0], ast.Name):
+            ctr = lastst.targets[0].id
+        if isinstance(b, ast.Name) and b.id == ctr and not (isinstance(a, ast.Name) and a.id == ctr):
+            a, b = b, a
+            op = {ast.Lt: ast.Gt, ast.Gt: ast.Lt, ast.LtE: ast.GtE, ast.GtE: ast.LtE}.get(op)
+        if not isinstance(a, ast.Name) or op not in (ast.Lt, ast.LtE, ast.Gt, ast.GtE):
+            return None
+        i = a.id
+        last = w.body[-1]
+        step = None
+        if isinstance(last, ast.AugAssign) and isinstance(last.target, ast.Name) and last.target.id == i \
+                and isinstance(last.op, (ast.Add, ast.Sub)) and isinstance(last.value, ast.Constant) and type(last.value.value) is int:
+            step = last.value.value if isinstance(last.op, ast.Add) else -last.value.value
+        elif isinstance(last, ast.Assign) and len(last.targets) == 1 and isinstance(last.targets[0], ast.Name) and last.targets[0].id == i \
+                and isinstance(last.value, ast.BinOp) and isinstance(last.value.op, (ast.Add, ast.Sub)) \
+                and isinstance(last.value.left, ast.Name) and last.value.left.id == i \
+                and isinstance(last.value.right, ast.Constant) and type(last.value.right.value) is int:
+            step = last.value.right.value if isinstance(last.value.op, ast.Add) else -last.value.right.value
+        if not step or (step > 0) != (op in (ast.Lt, ast.LtE)):
+            return None
+        body = w.body[:-1]
+        if not body:
+            return None
+        # i is not assigned elsewhere in the body, no `continue` that would skip the increment, no nested function using it
+        for n in ast.walk(ast.Module(body=body, type_ignores=[])):
+            if isinstance(n, ast.Name) and n.id == i and isinstance(n.ctx, (ast.Store, ast.Del)):
+                return None
+            if isinstance(n, (ast.Continue, ast.FunctionDef, ast.Lambda, ast.Global, ast.Nonlocal)):
+                return None
+        # the bound is loop-invariant: built from names / attributes / constants / arithmetic / len(), whose roots the body never rebinds or updates
+        roots = set()
+        for n in ast.walk(b):
+            if isinstance(n, ast.Name):
+                roots.add(n.id)
+            elif isinstance(n, ast.Call):
+                if not (isinstance(n.func, ast.Name) and n.func.id in ('len', 'int', 'min', 'max', 'abs')):
+                    return None
+            elif not isinstance(n, (ast.Attribute, ast.Constant, ast.BinOp, ast.UnaryOp, ast.operator, ast.unaryop, ast.expr_context, ast.Subscript)):
+                return None
+        roots.discard('len'); roots.discard('int'); roots.discard('min'); roots.discard('max'); roots.discard('abs')
+        if i in roots:
+            return None
+        for n in ast.walk(ast.Module(body=body, type_ignores=[])):
+            tgt = None
+            if isinstance(n, ast.Name) and isinstance(n.ctx, (ast.Store, ast.Del)):
+                tgt = n
+            elif isinstance(n, (ast.Attribute, ast.Subscript)) and isinstance(n.ctx, (ast.Store, ast.Del)):
+                tgt = n.value
+            elif isinstance(n, ast.Call) and isinstance(n.func, ast.Attribute):
+                tgt = n.func.value          # any method call on a root of the bound may change it
+            elif isinstance(n, ast.Call):
+                for x in n.args:            # handing a root object to a call may change it
+                    r = x
+                    while isinstance(r, (ast.Attribute, ast.Subscript)):
+                        r = r.value
+                    if isinstance(r, ast.Name) and r.id in roots and not isinstance(x, ast.Name):
+                        return None
+                continue
+            while isinstance(tgt, (ast.Attribute, ast.Subscript)):
+                tgt = tgt.value
+            if isinstance(tgt, ast.Name) and tgt.id in roots:
+                if isinstance(b, ast.Name) or any(isinstance(x, (ast.Attribute, ast.Subscript, ast.Call)) for x in ast.walk(b)) or True:
+                    return None
+        # i must not be read after the loop (a for loop leaves the last index, a while loop the first value past the bound)
+        for st in following:
+            for n in ast.walk(st):
+                if isinstance(n, ast.Name) and n.id == i:
+                    if isinstance(n.ctx, ast.Load):
+                        return None
+        stop = b
+        if op is ast.LtE:
+            stop = ast.BinOp(left=b, op=ast.Add(), right=ast.Constant(value=1))
+        elif op is ast.GtE:
+            stop = ast.BinOp(left=b, op=ast.Sub(), right=ast.Constant(value=1))
+        rng = ast.Call(func=ast.Name(id='range', ctx=ast.Load()), args=[ast.Name(id=i, ctx=ast.Load()), stop, ast.Constant(value=step)], keywords=[])
+        new = ast.For(target=ast.Name(id=i, ctx=ast.Store()), iter=rng, body=body, orelse=w.orelse, type_comment=None)
+        return ast.copy_location(new, w)
+
+    def generic_visit(self, node):
+        node = super().generic_visit(node)
+        for fld in ('body', 'orelse', 'finalbody'):
+            b = getattr(node, fld, None)
+            if isinstance(b, list) and b and isinstance(b[0], ast.stmt):
+                setattr(node, fld, self._block(b))
+        return node
+
     def visit_AnnAssign(self, node):
         self.generic_visit(node)
         if node.value is None:
